@@ -307,7 +307,7 @@ class Engine:
         return self._ord.get(id(node), 0)
 
     def allows(self, exc):
-        return self.allow_exc == "*" or exc in self.allow_exc
+        return self.allow_exc == "*" or exc in self.allow_exc or any(b_ in self.allow_exc for b_ in EXC_BASES.get(exc, ()))
 
     # ---- obligations
     def ob(self, kind, st: State, goal, node=None, tag=None, probes=None):
@@ -485,7 +485,7 @@ class Engine:
             return g
         if n.id in self.model.global_calls:
             return FuncRef(n.id)
-        if n.id in ("min", "max", "divmod", "len", "range", "int", "bool", "abs", "isinstance", "hasattr", "getattr", "bytes"):
+        if n.id in ("min", "max", "divmod", "len", "range", "int", "bool", "abs", "isinstance", "hasattr", "getattr", "bytes", "bytearray"):
             return FuncRef(n.id)
         if getattr(self.model, "gate_mode", False):
             return OpaqueV(f"name:{n.id}")
@@ -500,7 +500,7 @@ class Engine:
             if self.model.is_method(base.path, n.attr):
                 return BoundMethod(base, n.attr)
             return self.model.attr(self, st, base.path, n.attr, n)
-        if isinstance(base, (FileV, ListV, BytesV, SeqV, SetListV)):
+        if isinstance(base, (FileV, ListV, BytesV, SeqV, SetListV)) or (isinstance(base, StrV) and n.attr == "encode"):
             return BoundMethod(base, n.attr)
         if isinstance(base, FuncRef) and base.name == "int":
             return BoundMethod(base, n.attr)
@@ -911,9 +911,13 @@ class Engine:
                 return NoneV()
             if isinstance(recv, OpaqueV):
                 return OpaqueV(recv.tag + "()")
+            if isinstance(recv, StrV) and f.name == "encode" and not args and not kwargs:
+                return const_bytes(recv.s.encode())
             if isinstance(recv, BytesV) and f.name == "decode":
-                if self.allow_exc != "*" and "UnicodeDecodeError" in (self.allow_exc or ()):
-                    self.may_raise("UnicodeDecodeError", st, fresh("decodable", B), n)
+                if self.allow_exc != "*" and self.allows("UnicodeDecodeError"):
+                    dec_ok = fresh("decodable", B)
+                    st.ghost["oks"] = st.ghost.get("oks", ()) + (dec_ok,)  # ghost: the "nothing raised" conditions of this path
+                    self.may_raise("UnicodeDecodeError", st, dec_ok, n)
                 o = OpaqueV("str")
                 o.memo[("decoded_from",)] = recv  # ghost: which bytes this text was decoded from
                 return o
@@ -985,6 +989,12 @@ class Engine:
             return BoolV(self.truthy(args[0]))
         if name == "int" and len(args) == 1 and isinstance(args[0], (IntV, BoolV)):
             return IntV(self.as_int(args[0], st, n))
+        if name in ("bytes", "bytearray") and len(args) == 1 and isinstance(args[0], BytesV):
+            return args[0]  # copy of an immutable model value
+        if name == "bytearray" and len(args) == 1 and isinstance(args[0], (IntV, OptV)):
+            cnt = self.as_int(args[0], st, n)
+            self.may_raise("ValueError", st, cnt >= 0, n)
+            return zeros(cnt)
         if name == "bytes" and len(args) == 1 and isinstance(args[0], TupleV) and all(isinstance(v, IntV) for v in args[0].items):
             # bytes([a, b, ..]): ValueError unless every element is in range(256)
             vals = [v.e for v in args[0].items]
@@ -1117,6 +1127,17 @@ class Engine:
                 raise Unsupported(f"attribute store on {type(base).__name__}@{node.lineno}")
             if self.model.on_attr_store(self, st, base.path, tgt.attr, v, node) != "skip":
                 st.attrs[f"{base.path}.{tgt.attr}"] = v
+        elif isinstance(tgt, ast.Subscript) and isinstance(tgt.value, ast.Name) and isinstance(st.env.get(tgt.value.id), BytesV) and isinstance(tgt.slice, ast.Slice):
+            # bytearray slice store  b[lo:hi] = v  : modelled when it keeps the length (len(v) == hi - lo, 0 <= lo <= hi <= len(b)) --
+            # anything else would resize the bytearray and is refused by an obligation
+            old = st.env[tgt.value.id]
+            if tgt.slice.step is not None or tgt.slice.lower is None or tgt.slice.upper is None or not isinstance(v, BytesV):
+                raise Unsupported(f"slice store shape@{node.lineno}")
+            lo = self.as_int(self.ev(tgt.slice.lower, st), st, node)
+            hi = self.as_int(self.ev(tgt.slice.upper, st), st, node)
+            self.ob("encoding.slice_store_keeps_length", st, z3.And(0 <= lo, lo <= hi, hi <= old.n, v.n == hi - lo), node)
+            st.hyps.append(z3.And(0 <= lo, lo <= hi, hi <= old.n, v.n == hi - lo))
+            st.env[tgt.value.id] = BytesV(old.n, lambda i, old=old, v=v, lo=lo, hi=hi: z3.If(z3.And(lo <= i, i < hi), v.at(i - lo), old.at(i)), (tuple(old.bounds) + (lo, hi))[-6:])
         elif isinstance(tgt, ast.Subscript):
             base = self.ev(tgt.value, st)
             if isinstance(base, OpaqueV) or (getattr(self.model, "gate_mode", False) and not isinstance(base, ObjV)):
@@ -1206,6 +1227,8 @@ class Engine:
                     e = stack.pop()
                     if isinstance(e, ast.Name):
                         names.add(e.id)
+                    elif isinstance(e, ast.Subscript) and isinstance(e.value, ast.Name) and isinstance(e.slice, ast.Slice):
+                        names.add(e.value.id)  # b[lo:hi] = ... on a local bytearray rebinds the model value of b
                     elif isinstance(e, (ast.Tuple, ast.List)):
                         stack.extend(e.elts)
                     elif isinstance(e, ast.Starred):
@@ -1524,7 +1547,7 @@ class Engine:
         outs = []
         for e, out in res:
             if isinstance(out, tuple) and out[0] == "raise":
-                h = handlers.get(out[1]) or handlers.get("Exception") or handlers.get("*")
+                h = handlers.get(out[1]) or next((handlers[b_] for b_ in EXC_BASES.get(out[1], ()) if b_ in handlers), None) or handlers.get("Exception") or handlers.get("*")
                 if h is not None:
                     outs.extend(self.run(h.body, e))
                     continue
@@ -1533,6 +1556,12 @@ class Engine:
                     continue
             outs.append((e, out))
         return outs
+
+
+# builtin exception hierarchy (proper bases, nearest first) for `except` matching
+EXC_BASES = {"UnicodeDecodeError": ("UnicodeError", "ValueError"), "UnicodeEncodeError": ("UnicodeError", "ValueError"), "UnicodeError": ("ValueError",), "KeyError": ("LookupError",),
+             "IndexError": ("LookupError",), "ZeroDivisionError": ("ArithmeticError",), "OverflowError": ("ArithmeticError",), "FileNotFoundError": ("OSError",),
+             "NotImplementedError": ("RuntimeError",), "binascii.Error": ("ValueError",), "JSONDecodeError": ("ValueError",)}
 
 
 # ------------------------------------------------------------------------------------------------ source access
